@@ -30,7 +30,7 @@ ASSUMPTIONS = [
     'the domain (the rest is C15\'s subject)',
 ]
 BATCH = 50
-QUICK_FRACTION = {'S1': 0.04, 'S2': 0.12}
+QUICK_FRACTION = {'S1': 0.025, 'S2': 0.08}
 ALPHA = {'S1': 'bc', 'S2': 'abmf'}
 _WORDS = {}
 
@@ -78,6 +78,17 @@ def near_miss(A, w, oc, alphabet):
     return False
 
 
+def nested_choice_counted_branch(m, root=True):
+    """Reference-only predicate: a choice group below the root has a leaf branch with
+    min != max and a finite max (c?, a{2,3}, ...)."""
+    if m[0] == 'e':
+        return False
+    if m[0] == 'cho' and not root and any(
+            c[0] == 'e' and c[2] != c[3] and c[3] is not None for c in m[1]):
+        return True
+    return any(nested_choice_counted_branch(c, False) for c in m[1])
+
+
 def classify(ver, m, A, oc=None):
     """Known-finding classes: predicates over the model and the reference only."""
     cl = []
@@ -88,13 +99,19 @@ def classify(ver, m, A, oc=None):
     return cl
 
 
-def judge_words(ver, s, i, m, A, wordlist, st, oc=None, alphabet='bc', check_parent=True):
+def judge_words(ver, s, i, m, A, wordlist, st, oc=None, alphabet='bc', check_parent=True,
+                replaying=False):
     """Compare library and reference on every word for model i of schema s."""
     out = []
     ntl = cm.nleaves(m) >= 2
+    over = nested_choice_counted_branch(m)
+    skip_over = over and core.findings(PROPERTY).has_class('choice-overaccept') and not replaying
     for w in wordlist:
-        st.case()
         exp = accepts(A, w, oc)
+        if skip_over and not exp:
+            st.exclude('class:choice-overaccept (rejections not asserted)')
+            continue
+        st.case()
         doc = cm.doc(i, w)
         got = s.is_valid(doc)
         if ntl and ((exp and w) or (not exp and near_miss(A, w, oc, alphabet))):
@@ -103,7 +120,8 @@ def judge_words(ver, s, i, m, A, wordlist, st, oc=None, alphabet='bc', check_par
             out.append({'kind': 'verdict', 'input': {'ver': ver, 'model': m, 'word': w, 'oc': oc},
                         'expected': 'valid' if exp else 'invalid',
                         'observed': 'valid' if got else 'invalid',
-                        'key': key(ver, m, w, oc), 'classes': []})
+                        'key': key(ver, m, w, oc),
+                        'classes': ['choice-overaccept'] if (over and not exp) else []})
         elif not got and check_parent:
             root = ET.fromstring(doc)
             errs = list(s.iter_errors(root))
@@ -138,7 +156,7 @@ def judge_batch(ver, models, scope, tier, st, oc=None, wordlist=None, alphabet=N
         recs = judge_words(ver, s, i, m, A, wordlist or words_for(scope, tier), st, oc,
                            alphabet or ALPHA.get(scope, 'abmf'))
         for r in recs:
-            r['classes'] = cl
+            r['classes'] = r['classes'] + cl
         out += recs
     return out
 
@@ -269,10 +287,10 @@ def replay(record):
     A = cm.Auto(m, ver == '11')
     if merr[0] or A.conflicts():
         return []
-    recs = judge_words(ver, s, 0, m, A, [inp['word']], st, oc, 'abmf')
+    recs = judge_words(ver, s, 0, m, A, [inp['word']], st, oc, 'abmf', replaying=True)
     cl = classify(ver, m, A, oc)
     for r in recs:
-        r['classes'] = cl
+        r['classes'] = r['classes'] + cl
     return [r for r in recs if r['kind'] == record['kind']]
 
 
